@@ -22,6 +22,33 @@ def parseOp : List String → Option Op
   | ["sForge", e] => e.toNat?.map .sForge
   | _ => none
 
+/-- coverage tag of one step: which branch of the model it took, refined by the situations the
+property distinguishes (old token after a renewal, new token before the client applied it, forged) -/
+def armOf (s : St) (op : Op) (o : Out) : String :=
+  let sec := if s.secured then "sec" else "unsec"
+  match op, o with
+  | .cSend, _ => if s.outstanding then "cSend-during-renew" else "cSend"
+  | .sSend, _ => if s.sKey != s.cKey then "sSend-before-client-apply" else "sSend"
+  | .cRenew, .idle => "cRenew-busy"
+  | .cRenew, _ => "cRenew"
+  | .cForge _, _ => "cForge"
+  | .sForge _, _ => "sForge"
+  | .cApply, .idle => "cApply-nothing"
+  | .cApply, _ => "cApply"
+  | .sStep, .idle => match s.c2s with
+    | [] => "sStep-empty"
+    | _ => "sStep-stray"
+  | .sStep, .renewed e => if e ≥ 2 then "sStep-renew-again" else "sStep-renew-first"
+  | .sStep, .accepted e => s!"sStep-accept-{sec}" ++ (if e ≥ 1000 then "-forged" else if e == s.sKey then "-current" else "-other")
+  | .sStep, .rejected e => "sStep-reject" ++ (if e ≥ 1000 then "-forged" else if e + 1 == s.sKey then "-old-token" else "-other")
+  | .cStep, .idle => match s.s2c with
+    | [] => "cStep-empty"
+    | _ => "cStep-stray"
+  | .cStep, .gotResp _ => "cStep-resp"
+  | .cStep, .accepted e => s!"cStep-accept-{sec}" ++ (if e ≥ 1000 then "-forged" else if e == s.cKey then "-current" else "-other")
+  | .cStep, .rejected e => "cStep-reject" ++ (if e ≥ 1000 then "-forged" else if s.pend == some e then "-new-token-before-apply" else "-other")
+  | _, _ => "other"
+
 /-- `reset <policy> <mode>`: only whether the channel is secured matters to the model
 (policy ≠ None and mode ∈ {Sign, SignAndEncrypt}). -/
 def dstep (s : St) (toks : List String) : St × String :=
@@ -31,7 +58,9 @@ def dstep (s : St) (toks : List String) : St × String :=
     (init secured, s!"ok secured={boolStr secured}")
   | _ =>
     match parseOp toks with
-    | some op => let (s', o) := step s op; (s', showOut o)
+    | some op =>
+      let (s', o) := step s op
+      (s', showOut o ++ " @@ " ++ armOf s op o)
     | none => (s, "bad-op")
 
 def driver : Driver := { σ := St, init := init true, step := dstep }
